@@ -41,6 +41,7 @@ keyed on it cannot be steered by anything the client controls.
 from __future__ import annotations
 
 import base64
+import hashlib
 import os
 import secrets
 import struct
@@ -424,7 +425,7 @@ class _ResolvedCall:
     :meth:`StreamState.bind_call_state` documents.
     """
 
-    __slots__ = ("call_state", "created_at", "input_schema", "output_schema", "stream_id")
+    __slots__ = ("call_state", "created_at", "input_schema", "output_schema", "stream_id", "token_digest")
 
     def __init__(
         self,
@@ -433,7 +434,12 @@ class _ResolvedCall:
         input_schema: pa.Schema,
         stream_id: str,
         created_at: int = 0,
+        token_digest: bytes = b"",
     ) -> None:
+        # Digest of the sealed call token this was parsed from (see
+        # :func:`_call_token_digest`).  A request served from the cache must
+        # present that same token, or none at all.
+        self.token_digest = token_digest
         # When the call token this was parsed from was minted.  The cache
         # counts an entry's lifetime from here, not from when it was stored,
         # so a cached call never outlives the token that names it.
@@ -442,6 +448,22 @@ class _ResolvedCall:
         self.output_schema = output_schema
         self.input_schema = input_schema
         self.stream_id = stream_id
+
+
+def _call_token_digest(call_token: bytes) -> bytes:
+    """Fingerprint a sealed call token for comparison against a cache entry.
+
+    Hashing the wire bytes is what lets a warm process recognise the token it
+    already verified without opening it again.
+
+    Args:
+        call_token: The sealed, base64-encoded call token as sent on the wire.
+
+    Returns:
+        The SHA-256 digest of the token bytes.
+
+    """
+    return hashlib.sha256(call_token).digest()
 
 
 class _CallStateCache:
